@@ -7,7 +7,7 @@
     selected by the flags generated from /repo), on [NtDomCur.C06_dom_cur] -- and, once every repair
     is in /repo, with no domain left and no hang on any text.  Lemmas: [Proofs/NtChannelsCur.v]. *)
 From Coq Require Import List Ascii String ZArith NArith Bool.
-From Shexer Require Import Lib.PyStr Gen.Consts Spec.Rdf Model.Freq Model.Shexing Model.Run Model.Channels
+From Shexer Require Import Lib.PyStr Gen.Consts Spec.Rdf Model.Freq Model.Shexing Model.Run Model.RunCur Model.Channels
      Spec.ChannelSpec Proofs.ChannelProofs Proofs.ChannelReaders Proofs.NtChannelsCur.
 From Shexer Require Model.NtReader Spec.NtSyntax Spec.NtDomCur.
 Import ListNotations.
@@ -61,7 +61,7 @@ Theorem C06_channel_text_to_graph :
                      NtDomCur.C06_dom_cur (fst x) (snd x) = true) ts ->
     run_over_passes fa c thr (passes pyfloat (nt_reader_cur allow) read_ttl gunzip unxz unzip rdf_parse o1 o2
                                      (Str "nt") None (SRaw (NtSyntax.nt_doc ts)))
-    = Some (run_shapes fa c thr (nt_graph ts)).
+    = Some (run_shapes_cur fa c thr (nt_graph ts)).
 Proof. exact nt_text_to_graph_cur. Qed.
 Print Assumptions C06_channel_text_to_graph.
 
@@ -74,16 +74,16 @@ Theorem C06_channel_text_channel_independent :
     (forall cm lss stored,
         List.concat lss = nt_lines ts -> cm_plain cm ->
         Forall2 (stored_as gunzip unxz cm) (map render_lines lss) stored ->
-        run_over_passes fa c thr (P o1 o2 (Str "nt") cm (SFiles stored)) = Some (run_shapes fa c thr (nt_graph ts))) /\
+        run_over_passes fa c thr (P o1 o2 (Str "nt") cm (SFiles stored)) = Some (run_shapes_cur fa c thr (nt_graph ts))) /\
     (forall cm st,
         cm_plain cm -> stored_as gunzip unxz cm (render_lines (nt_lines ts)) st ->
-        run_over_passes fa c thr (P o1 o2 (Str "nt") cm (SFile st)) = Some (run_shapes fa c thr (nt_graph ts))) /\
+        run_over_passes fa c thr (P o1 o2 (Str "nt") cm (SFile st)) = Some (run_shapes_cur fa c thr (nt_graph ts))) /\
     (forall archive lss,
         List.concat lss = nt_lines ts -> archive_holds unzip archive lss ->
-        run_over_passes fa c thr (P o1 o2 (Str "nt") (Some c_ZIP) (SFile archive)) = Some (run_shapes fa c thr (nt_graph ts))) /\
+        run_over_passes fa c thr (P o1 o2 (Str "nt") (Some c_ZIP) (SFile archive)) = Some (run_shapes_cur fa c thr (nt_graph ts))) /\
     (forall archives lsss,
         List.concat (List.concat lsss) = nt_lines ts -> Forall2 (archive_holds unzip) archives lsss ->
-        run_over_passes fa c thr (P o1 o2 (Str "nt") (Some c_ZIP) (SFiles archives)) = Some (run_shapes fa c thr (nt_graph ts))).
+        run_over_passes fa c thr (P o1 o2 (Str "nt") (Some c_ZIP) (SFiles archives)) = Some (run_shapes_cur fa c thr (nt_graph ts))).
 Proof. exact nt_text_channel_independent_cur. Qed.
 Print Assumptions C06_channel_text_channel_independent.
 
@@ -95,7 +95,7 @@ Theorem C06_channel_text_to_graph_full :
     Forall (fun x => NtSyntax.valid_triple (fst x) = true /\ NtSyntax.valid_layout (snd x) = true) ts ->
     run_over_passes fa c thr (passes pyfloat (nt_reader_cur allow) read_ttl gunzip unxz unzip rdf_parse o1 o2
                                      (Str "nt") None (SRaw (NtSyntax.nt_doc ts)))
-    = Some (run_shapes fa c thr (nt_graph ts)).
+    = Some (run_shapes_cur fa c thr (nt_graph ts)).
 Proof. exact nt_text_to_graph_full. Qed.
 Print Assumptions C06_channel_text_to_graph_full.
 
